@@ -40,8 +40,8 @@ T_C05 == /\ P!AtMostOnce(Log) /\ P!InOrder(Log) /\ P!RestartsNumbered(Events) /\
          /\ P!StoppedLast(Log) /\ P!IncMonotone(Log) /\ P!IncOrder(Log)      \* what follows a failure goes to a fresh, initialised receiver
          /\ R.quiet => \A a \in Actors : (Reg[a] /\ P!NotStopping(Issued, Events, a)) => \A k \in Accepted[a] : P!Handled(Log, a, k)
 T_C06 == /\ P!RestartsBounded(Events) /\ R.witness
-         /\ R.quiet => P!CleanAfterExhaustion(Events, Issued, Reg, TRUE)
-T_C06_Clean_strict == R.quiet => P!CleanAfterExhaustion(Events, Issued, Reg, FALSE)
+         /\ (R.quiet /\ R.respawns = 0) => P!CleanAfterExhaustion(Events, Issued, Reg, TRUE)
+T_C06_Clean_strict == (R.quiet /\ R.respawns = 0) => P!CleanAfterExhaustion(Events, Issued, Reg, FALSE)
 T_C07 == /\ P!KindsKnown(Log)
          /\ P!DoneAfterStop(Log, Done, TRUE)
          /\ P!Drained(Log, Events, Done, Issued, SentBefore)
@@ -56,4 +56,7 @@ T_C08 == /\ P!KidsFirst(Log, Issued, Events, TRUE)
 T_C08_KidsFirst_strict == P!KidsFirst(Log, Issued, Events, FALSE)
 T_C08_NotDoneEarly_strict == P!NotDoneEarly(Log, Done, Issued, Events, FALSE)
 T_C13 == P!ChainAlways(Log)
+T_C10 == /\ P!LiveResolvable(Log) /\ P!IncOrder(Log) /\ P!AtMostOnce(Log) /\ P!InOrder(Log)
+         /\ Cardinality({i \in 1..Len(Events) : Events[i].e = "DuplicateId"}) = R.dupspawns
+         /\ \A a \in Actors : R.producers[a] = Cardinality({Log[i].inc : i \in {k \in 1..Len(Log) : Log[k].a = a}})
 =============================================================================
